@@ -58,7 +58,7 @@ PROPS = {
                 gen=parse_family('C05', 1500, 40000), flavours=['c'],
                 rule='ambiguity flag vs number of derivations / distinct translations, one_parse in {0,1}',
                 assumptions=COMMON_ASSUME),
-    'C10': dict(level='proof', theorem_modules=['C10'], min_theorems=6, tags=['C10'], crash_counts=True,
+    'C10': dict(level='proof', theorem_modules=['C10', 'Generated'], min_theorems=8, tags=['C10'], crash_counts=True,
                 gen=lambda seed, tier: gen.gen_def_cases(seed, 20000 if tier == 'thorough' else 2500), flavours=['c'],
                 rule='random (mostly defective) terminal/rule lists through the callbacks, every defect class alone and in pairs, strict in {0,1}; return code vs model, symbol flags and rules vs model',
                 assumptions=COMMON_ASSUME),
@@ -96,7 +96,7 @@ PROPS = {
                 gen=lambda seed, tier: gen.gen_history_cases(seed, 12000 if tier == 'thorough' else 1200), flavours=['c'],
                 rule='random histories of <= 40 API calls over up to 3 live grammar objects (create, set, define good/defective, redefine, parse with sentences / non-sentences / invalid codes / NULL allocators, error queries, free_tree, free in any order); every return value, callback and tree is compared with the history-free model (a function of the object definition and settings only); library allocator accounting must be zero after all objects are freed',
                 assumptions=COMMON_ASSUME + ['the model is history-free by construction (Model/Api.lean); any deviation of any call is therefore a history dependence']),
-    'C15': dict(level='proof', theorem_modules=['C15'], min_theorems=10, tags=['C15'], crash_counts=True,
+    'C15': dict(level='proof', theorem_modules=['C15', 'Generated'], min_theorems=12, tags=['C15'], crash_counts=True,
                 gen=lambda seed, tier: gen.gen_history_cases(seed + 3, 12000 if tier == 'thorough' else 1200), flavours=['c'],
                 rule='the same histories: yaep_error_code / message after every call, return codes of yaep_parse for invalid token codes (below, between and above the declared codes), undefined grammars, NULL allocator with non-NULL free; previous values returned by all setters incl. out-of-range lookahead levels',
                 assumptions=COMMON_ASSUME),
